@@ -185,14 +185,27 @@ fn dropped_while_unwinding(rt: &tokio::runtime::Runtime, nbatches: usize, delay_
     let engine = DbBacked::new(db.clone(), Configuration::builder().serialization_workers(2).build());
     let manager = engine.new_write_manager();
     let map = engine.new_single_map::<Col, u64>();
+    let sets = engine.new_key_of_set_map::<SetCol, Set>();
     let mut batches = Vec::new();
     let mut model: BTreeMap<u64, u64> = BTreeMap::new();
+    let mut set_model: std::collections::BTreeSet<u64> = Default::default();
     for b in 0..nbatches {
         let mut wb = manager.new_write_batch();
         rt.block_on(map.insert(b as u64 % 3, 5000 + b as u64, &mut wb));
         model.insert(b as u64 % 3, 5000 + b as u64);
+        // every third batch carries ONLY key-of-set operations, every third both kinds
+        if b % 3 != 0 { rt.block_on(sets.insert(77, b as u64, &mut wb)); set_model.insert(b as u64); }
         batches.push(wb);
     }
+    for b in 0..nbatches {
+        if b % 3 == 1 {
+            let mut wb = manager.new_write_batch();
+            rt.block_on(sets.remove(&77, &(b as u64), &mut wb)); set_model.remove(&(b as u64));
+            rt.block_on(sets.insert(77, 1000 + b as u64, &mut wb)); set_model.insert(1000 + b as u64);
+            batches.push(wb);
+        }
+    }
+    drop(sets);
     let desc = format!("directed: {nbatches} batches submitted by a thread that then panics; the write manager is dropped while that thread unwinds (delay_mod={delay_mod}, group_ops={group_ops})");
     eprintln!("LAST-HISTORY directed: {desc}");
     drop(map);
@@ -214,6 +227,10 @@ fn dropped_while_unwinding(rt: &tokio::runtime::Runtime, nbatches: usize, delay_
     }
     if got != model {
         report_found("batches submitted before the write manager was dropped (during unwinding) are not in the store when the drop returns", &desc, &format!("{got:?}"), &format!("{model:?}"));
+    }
+    let got_set: std::collections::BTreeSet<u64> = db.0.sets.lock().unwrap().get(&set_key::<SetCol>(&77)).map(|s| s.iter().map(|b| qbice_serialize::postcard::decode::<u64>(b, &qbice_serialize::Plugin::default()).unwrap()).collect()).unwrap_or_default();
+    if got_set != set_model {
+        report_found("key-of-set operations of batches whose maps were dropped before submission are not in the store when the drop returns", &desc, &format!("{got_set:?}"), &format!("{set_model:?}"));
     }
     1
 }
